@@ -119,3 +119,65 @@ Proof. vm_compute. reflexivity. Qed.
 Example C01_row_nonvacuous_premises :
   row_bases_ok r0 = true /\ rmems r0 (1 + row_size r0) 0 = ["_pts12"; "_n13"; "_s14"].
 Proof. vm_compute. split; reflexivity. Qed.
+
+(* ---------- whole queries (fragment F1): event filter, Select / SelectMany, whole jobs ---------- *)
+(* For every query of F1 - ds[.Where(lambda e: cond)].Select(lambda e: ROW) or
+   ds[.Where(lambda e: cond)].SelectMany(lambda e: e.C("bank")[.Where(p)].Select(lambda x: PROW)) - every first
+   index, every event and every member state in which the column members are declared (vector members empty):
+   the job writes exactly the rows the query denotes - none when the filter rejects the event, one for a Select,
+   one per passing element in collection order for a SelectMany - or fails exactly when the query is undefined,
+   and leaves the members in a state of the same kind. *)
+From FV Require Import Model.FragQuery Proofs.FragQueryProofs.
+
+Theorem C01_query_event :
+  forall (bk : backend) (q : query) (n0 : nat) (ev : event) (ms : frame),
+  query_ok q = true -> NoDup (bmems (q_body q) (body_start q n0)) -> binit (q_body q) (body_start q n0) ms ->
+  match dquery ev q with
+  | ROk rws => exists ms', run_event (prog_q bk q n0) ms ev = ROk (rws, ms') /\ binit (q_body q) (body_start q n0) ms'
+  | RFault f => run_event (prog_q bk q n0) ms ev = RFault f
+  | RStuck _ => True
+  end.
+Proof. exact frag_query_event. Qed.
+Print Assumptions C01_query_event.
+
+(* whole jobs: ANY list of events through one analysis object (members persist between events): the rows of
+   the job are the rows of the events, in order; the job aborts at exactly the first event on which the query
+   is undefined, with that fault, keeping the rows of the events before it *)
+Theorem C01_query_job :
+  forall (bk : backend) (q : query) (n0 : nat) (evs : list event),
+  query_ok q = true -> NoDup (bmems (q_body q) (body_start q n0)) ->
+  (forall ev, In ev evs -> nstuck (dquery ev q)) ->
+  run_job (prog_q bk q n0) evs = djob q evs.
+Proof. exact frag_job_correct. Qed.
+Print Assumptions C01_query_job.
+
+(* the reference semantics of SelectMany is the LINQ one *)
+Theorem C01_selectmany_is_map_filter :
+  forall (ev : event) (cols : prow) (ps : list pred) (f : value -> bool) (g : value -> list value) (l : list value),
+  passes_total ev ps l f -> (forall v, In v l -> f v = true -> dprow ev v cols = ROk (g v)) ->
+  many_loop ev cols ps l = ROk (map g (filter f l)).
+Proof. exact many_is_map_filter. Qed.
+Print Assumptions C01_selectmany_is_map_filter.
+
+(* non-vacuity: events with more than one jet give one row (2*pt, 1) per jet with pt > 30 *)
+Definition q1 : query :=
+  {| q_filter := Some (EBin OGt (ECount {| k_coll := jets; k_preds := []; k_agg := ACount |}) (EInt 1));
+     q_body := QMany jets [{| p_op := ">"; p_l := PMeth "pt"; p_r := PInt 30 |}]
+                     [("a", PBin "*" (PMeth "pt") (PInt 2)); ("b", PInt 1)] |}.
+Definition ev2 : event :=
+  {| ev_colls := [(("const xAOD::JetContainer*", "aj"), VVec [VObj 7])]; ev_meths := [((7, "pt"), VInt 99)] |}.
+Example C01_query_nonvacuous_premises :
+  query_ok q1 = true /\ bmems (q_body q1) (body_start q1 1) = ["_a6"; "_b7"].
+Proof. vm_compute. split; reflexivity. Qed.
+Example C01_query_nonvacuous_denotes :
+  dquery ev0 q1 = ROk [[VDbl (QArith_base.inject_Z 62); VInt 1]; [VDbl (QArith_base.inject_Z 90); VInt 1]] /\ dquery ev2 q1 = ROk [].
+Proof. vm_compute. split; reflexivity. Qed.
+Example C01_query_nonvacuous_job :
+  run_job (prog_q atlas q1 1) [ev0; ev2; ev0] =
+  JDone [[[VDbl (QArith_base.inject_Z 62); VInt 1]; [VDbl (QArith_base.inject_Z 90); VInt 1]]; [];
+         [[VDbl (QArith_base.inject_Z 62); VInt 1]; [VDbl (QArith_base.inject_Z 90); VInt 1]]].
+Proof. vm_compute. reflexivity. Qed.
+Example C01_query_nonvacuous_abort :
+  run_job (prog_q atlas q1 1) [ev0; {| ev_colls := []; ev_meths := [] |}; ev0] =
+  JAbort [[[VDbl (QArith_base.inject_Z 62); VInt 1]; [VDbl (QArith_base.inject_Z 90); VInt 1]]] 1 FRetrieve.
+Proof. vm_compute. reflexivity. Qed.
